@@ -44,7 +44,7 @@ def _kinds(m):
     return '+'.join(sorted(ks)) or 'straight'
 
 
-def assembly(ck, sh, mm, gname, pi):
+def assembly(ck, sh, mm, gname, pi, second_f=None):
     M = sh.mininec
     T = psistub.AtomTable()
     pc.install(M, T)
@@ -60,6 +60,10 @@ def assembly(ck, sh, mm, gname, pi):
         m.power = 1.0
         with symx.object_arrays():
             m.compute_near_field(x, np.ones(3), np.ones(3, dtype=int))
+            if second_f is not None:
+                # a sweep step: the same object at another frequency -- the field must be that of the new wavelength
+                m.f = second_f
+                m.compute_near_field(x, np.ones(3), np.ones(3, dtype=int))
         E, H = nearfield.fields(m, x, I, mininec3.atom_psi(T, m, near_field=True))
         return dict(inputs=dict(I=I), e=list(m.e_field[0]), h=list(m.h_field[0]), E=E, H=H)
 
@@ -81,13 +85,13 @@ def assembly(ck, sh, mm, gname, pi):
         return g
 
     def replay(conc, gn, out):
-        return replay_sentence(mm, gname, x)
-    prove_paths(ck, 'assembly-%s-pt%d' % (gname, pi), fn, goals, replay, max_paths=4, fork_policy='assume', twin_timeout_ms=2000,
+        return replay_sentence(mm, gname, x, second_f)
+    prove_paths(ck, 'assembly-%s-pt%d%s' % (gname, pi, '' if second_f is None else '-then-%gMHz' % second_f), fn, goals, replay, max_paths=4, fork_policy='assume', twin_timeout_ms=2000,
                 timeout_ms=30000 if ck.tier == 'quick' else 120000)
     ck.bounds.setdefault('assembly', []).append('%s at %s: %d integral atoms' % (gname, [float(v) for v in x], len(T.atoms)))
 
 
-def replay_sentence(mm, gname, x):
+def replay_sentence(mm, gname, x, second_f=None):
     """Feed every pulse in turn, solve, compare the reported near field at x with the fields of the solved
     pulse currents and charges integrated adaptively; 1 % of the field magnitude."""
     m0 = catalogue.build(mm, gname)
@@ -97,6 +101,10 @@ def replay_sentence(mm, gname, x):
         m.register_source(mm.Excitation(1.0), feed)
         m.compute()
         m.compute_near_field(x, np.ones(3), np.ones(3, dtype=int), pwr=100.0)
+        if second_f is not None:
+            m.f = second_f
+            m.compute()
+            m.compute_near_field(x, np.ones(3), np.ones(3, dtype=int), pwr=100.0)
         f_e = np.sqrt(100.0 / m.power)
         E, H = nearfield.fields(m, x, list(m.current), mininec3.quad_psi(m, 1e-9), f_e=f_e)
         e, h = np.array(m.e_field[0]), np.array(m.h_field[0])
@@ -170,10 +178,10 @@ def main(args):
     ck.shadow_stats = symx.load().stats
     if ck.tier == 'quick':
         geos = ['G1', 'G2', 'G3', 'G4', 'G8', 'G9', 'G11', 'G15']
-        parts = [('assembly', (g, 0)) for g in geos] + [('power_scaling', ('G2',))]
+        parts = [('assembly', (g, 0)) for g in geos] + [('power_scaling', ('G2',))] + [('assembly', ('G2', 0, 21.3)), ('assembly', ('G8', 0, 21.3))]
     else:
         geos = ['G1', 'G2', 'G3', 'G4', 'G5', 'G6', 'G7', 'G8', 'G9', 'G10', 'G11', 'G12', 'G13', 'G14', 'G16']
-        parts = [('assembly', (g, k)) for g in geos for k in (0, 1)] + [('power_scaling', (g,)) for g in ('G2', 'G9')]
+        parts = [('assembly', (g, k)) for g in geos for k in (0, 1)] + [('power_scaling', (g,)) for g in ('G2', 'G9')] + [('assembly', (g, 0, 21.3)) for g in ('G2', 'G8', 'G9', 'G11')]
     run_parallel(ck, 'checks.c04', parts)
     ck.assumptions += ['geometry: catalogue members (straight, L joined end2-end1 / end1-end1 / end2-end2 with different radii and segment '
                        'lengths, T, star, wires grounded at either end, tapered wire, arc, helix); one or two observation points more than a '
